@@ -3,6 +3,7 @@ package props
 import (
 	"fmt"
 	"sort"
+	"strings"
 	"testing"
 	"time"
 
@@ -144,8 +145,7 @@ func (c *monC09) After(m *Machine, s *Step) *Violation {
 					m.flag("expired-with-whitelist")
 				}
 			}
-			c.sync(b, r, laStr)
-			return nil
+			// (a login request over the expired session still has to start a new clock: checked below)
 		case "alive":
 			m.flag("alive")
 			if r.Rec.ProbeRan && r.Rec.ProbeUID != r.SessBefore[authboss.SessionKey] {
@@ -163,8 +163,18 @@ func (c *monC09) After(m *Machine, s *Step) *Violation {
 			}
 		}
 	}
-	// login starts the idle clock (logins that fire the auth event)
-	if r.UID() != "" && r.UID() != r.UIDBefore() {
+	// login starts the idle clock (logins that fire the auth event) - also a login over a session
+	// that already names the same user (for instance an expired one): judged by the success
+	// answer, not by a change of identity
+	relogin := false
+	if r.UID() != "" && r.UID() == r.UIDBefore() && r.Fired == "" && r.Rec.HandlerErr == nil &&
+		(strings.HasPrefix(r.Location, "/ok/login") || (op.S2 != "" && r.Location == op.S2)) {
+		if ok, inc := credTruth(m, s, r.UID()); ok && !inc {
+			relogin = true
+			m.flag("relogin-same-user")
+		}
+	}
+	if r.UID() != "" && (r.UID() != r.UIDBefore() || relogin) {
 		switch op.K {
 		case "login", "otplogin", "totpvalidate", "smsvalidate", "recend":
 			na, ok := r.SessAfter[authboss.SessionLastAction]
